@@ -502,6 +502,9 @@ func runConfig(res *core.Result, pool *idPool, r *rand.Rand, full bool) {
 					_ = ep.SendRejected(V.ID.IP, S.ID.IP, proto, dport)
 					_, _, _ = snd.Inst.RouterV.PingPong.Send(V.ID.IP, false, 0)
 					ms.Drain(vmesh.FIFO, 100)
+					// ... and the victim pings that router and gets its answer (it is reachable - nothing more)
+					_, _, _ = V.Inst.RouterV.PingPong.Send(snd.ID.IP, false, 0)
+					ms.Drain(vmesh.FIFO, 100)
 					// ... and a fresh key setup with the victim (a completed hello says the router is reachable, not
 					// that it may now use a port it was refused)
 					V.Inst.RouterV.HelloPing.VerifExpireHello(snd.ID.IP)
@@ -710,6 +713,8 @@ func runConfig(res *core.Result, pool *idPool, r *rand.Rand, full bool) {
 					_ = ep.SendGeneric(V.ID.IP, "x")
 					_ = ep.SendAccessDenied(V.ID.IP, D.ID.IP, oproto, 80)
 					_ = ep.SendRejected(V.ID.IP, D.ID.IP, oproto, 80)
+					ms.Drain(vmesh.FIFO, 100)
+					_, _, _ = V.Inst.RouterV.PingPong.Send(snd.ID.IP, false, 0)
 					ms.Drain(vmesh.FIFO, 100)
 					V.Inst.RouterV.HelloPing.VerifExpireHello(snd.ID.IP)
 					_, _ = env.Rekey(snd.Inst, V.ID.IP)
